@@ -369,8 +369,9 @@ def _error_checks(e, nchars, seen=None):
         except Exception as x:  # noqa
             out.append(
                 (
-                    "render-raises/%s:%s/exc=%s/in=%s" % (label, type(x).__name__, name, _innermost(e)),
-                    "position=%r len=%d: %s raised %r" % (pos, nchars, label, x),
+                    # keyed by where the *rendering* fails, not by where the syntax error was raised
+                    "render-raises/%s:%s/in=%s" % (label, type(x).__name__, _innermost(x)),
+                    "%s raised at %s with position=%r len=%d: %s raised %r" % (name, _innermost(e), pos, nchars, label, x),
                 )
             )
     return out
